@@ -97,7 +97,7 @@ def run(ctx):
     built, drv = prepare(
         ctx,
         MODULE,
-        "statistics of the shared traced run and of seeded small runs (1-9 rows drawn from specials and curated balanced "
+        "statistics of the shared traced run, of the untraced runs under 5 configurations (see C01) and of seeded small runs (1-9 rows drawn from specials and curated balanced "
         "reactions, sometimes one malformed row) under batch sizes {None,1,2,3,k,k+1} and thresholds {0,0.5,0.9}; every "
         "equality/inequality of the property is evaluated on the real stats dict vs the real rows; the model's per-row "
         "statistics are summed and compared with the real stats of every traced batch (non-trivial = run with at least one row "
@@ -118,5 +118,6 @@ def run(ctx):
             statement(ctx, t3)
             ctx.count("threshold-run")
         cli_stats_case(ctx)
+        pipeline.each_config(ctx, lambda name, c: statement(ctx, c))
         ctx.sample({"stats": tr["stats"], "rows": len(tr["out"] or [])})
     return ctx.finish(search)
